@@ -998,8 +998,9 @@ def emit_rust(repo, verif_root, ops, smithy, op_names, trait_methods, shapes, ho
             elif m["loc"] == "payload" and m["kind"] == "blob":
                 # a streamed body in several chunks, empty ones in the middle and at the end included: the client must read the
                 # concatenation (pseudo member `@body`, compared by the driver with the response body the harness collected)
-                expr = ('s3s::dto::StreamingBlob::wrap(futures::stream::iter(vec![&b"hello "[..], &b""[..], &b"wor"[..], &b""[..], &b""[..], &b"ld"[..], &b""[..]]'
-                        '.into_iter().map(|c| Ok::<_, std::io::Error>(bytes::Bytes::from_static(c)))))')
+                # ... from a stream that reports its EXACT remaining length (like a file-backed one), the last two chunks one byte
+                # each: the hints the response body gives (is_end_stream, size_hint) are checked by the harness while it reads
+                expr = 's3s::dto::StreamingBlob::new(s3vh::ExactChunks::new(&[b"hello ", b"", b"wor", b"", b"", b"l", b"d", b""]))'
                 sets.append(f"out.{fn} = {wrap(expr)};")
                 exp.append(("@body", "68656c6c6f20776f726c64"))
         out_sets[meth] = sets
@@ -1035,6 +1036,8 @@ def emit_rust(repo, verif_root, ops, smithy, op_names, trait_methods, shapes, ho
                 R.append("                        use futures::StreamExt;")
                 R.append("                        let mut v: Vec<u8> = Vec::new();")
                 R.append("                        let mut err = \"\";")
+                R.append("                        // the length the stream announces, if it announces one, must be the length it delivers (`?` otherwise)")
+                R.append("                        let announced = s3s::stream::ByteStream::remaining_length(&b).exact();")
                 R.append("                        while let Some(x) = b.next().await {")
                 R.append("                            match x {")
                 R.append("                                Ok(bytes) => v.extend_from_slice(&bytes),")
@@ -1043,6 +1046,9 @@ def emit_rust(repo, verif_root, ops, smithy, op_names, trait_methods, shapes, ho
                 R.append("                                    break;")
                 R.append("                                }")
                 R.append("                            }")
+                R.append("                        }")
+                R.append("                        if err.is_empty() && announced.is_some_and(|a| a != v.len()) {")
+                R.append("                            err = \"?\";")
                 R.append("                        }")
                 R.append('                        format!("Some(blob:{}{})", v.iter().map(|c| format!("{c:02x}")).collect::<String>(), err)')
                 R.append("                    }")
